@@ -11,6 +11,9 @@ for f in ('patch.diff', 'demo_test.go'):
     shutil.copy(os.path.join(src, f), os.path.join(d, f))
 shutil.copy(os.path.join(src, 'README.md'), os.path.join(d, 'AUTHOR_NOTES.md'))
 m = json.load(open(os.path.join(src, 'meta.json')))
+import re
+m['run'] = re.sub(r'^-run[ =]+', '', m['run'].strip()).strip("'\"")
+m['module_dir'] = m['module_dir'].rstrip('/') or '.'
 meta = {"id": sid, "breaks_property": p.upper(), "change": change, "needs_to_manifest": needs,
   "demo": {"copy_demo_test_go_to": m['demo_copy_to'], "module_dir": m['module_dir'], "package": m['package'], "run": m['run'],
            "command": "tools/confirm_seed.sh seeded/%s %s %s %s '%s'" % (sid, m['demo_copy_to'], m['module_dir'], m['package'], m['run'])},
